@@ -194,7 +194,7 @@ class _BcryptCommon(  # type: ignore[misc]
         # check for incorrect padding bits (passlib issue 25)
         if isinstance(hash, bytes):
             hash = hash.decode("ascii")
-        if hash.startswith(IDENT_2A) and hash[28] not in cls.final_salt_chars:
+        if hash.startswith(IDENT_2A) and len(hash) > 28 and hash[28] not in cls.final_salt_chars:
             return True
 
         # TODO: try to detect incorrect 8bit/wraparound hashes using kwds.get("secret")
